@@ -111,4 +111,10 @@ META = {
         "note": "independent of the reference semantics of C01: only pairs of parser outputs are compared",
         "technique": "runtime monitoring: metamorphic oracle over pairs of executions",
     },
+    "C07": {
+        "text": "Catalogue monitor for diagnostics: soundness on generated well-formed recipes, completeness and label placement for 59 injected invalid constructs at random placements under the extension sets that enable each check, and the validity/output/stage relation on every parse including fuzz inputs.",
+        "design_ref": "DESIGN.md §6 C07, Appendix B",
+        "note": "matched by severity, stage and first-label placement only, never by message text",
+        "technique": "runtime monitoring: fault-injection catalogue + soundness oracle over generated inputs",
+    },
 }
